@@ -17,12 +17,105 @@ class AnalysisError(Exception):
 PKG = "skepticoin"
 
 
+class _Canon(ast.NodeTransformer):
+    """control-flow spellings that are the same loop: `while True: if c: break; body`  ->  `while not c: body`"""
+
+    def visit_While(self, node: ast.While) -> ast.AST:
+        self.generic_visit(node)
+        if (isinstance(node.test, ast.Constant) and node.test.value is True and not node.orelse and len(node.body) >= 2
+                and isinstance(node.body[0], ast.If) and not node.body[0].orelse and len(node.body[0].body) == 1
+                and isinstance(node.body[0].body[0], ast.Break)):
+            first = node.body[0]
+            test = ast.copy_location(ast.UnaryOp(op=ast.Not(), operand=first.test), first.test)
+            new = ast.While(test=test, body=node.body[1:], orelse=[])
+            return ast.copy_location(new, node)
+        return node
+
+
+def _names_used(node: ast.AST, name: str) -> int:
+    return sum(1 for n in ast.walk(node) if isinstance(n, ast.Name) and n.id == name)
+
+
+def _flag_to_else(stmts: List[ast.stmt], scope_node: ast.AST) -> List[ast.stmt]:
+    """`found = False; for ..: ..; if c: found = True; break` followed by `if not found: S`  ->  `for ..: .. if c: break` `else: S`
+    when the flag is used for nothing else in the enclosing function."""
+    i = 0
+    out = list(stmts)
+    while i < len(out) - 1:
+        loop, nxt = out[i], out[i + 1]
+        if not (isinstance(loop, ast.For) and not loop.orelse and isinstance(nxt, ast.If) and not nxt.orelse
+                and isinstance(nxt.test, ast.UnaryOp) and isinstance(nxt.test.op, ast.Not) and isinstance(nxt.test.operand, ast.Name)):
+            i += 1
+            continue
+        flag = nxt.test.operand.id
+        init = [j for j in range(i) if isinstance(out[j], ast.Assign) and len(out[j].targets) == 1 and isinstance(out[j].targets[0], ast.Name)
+                and out[j].targets[0].id == flag and isinstance(out[j].value, ast.Constant) and out[j].value.value is False]
+        if not init:
+            i += 1
+            continue
+        j = init[-1]
+        # every use of the flag in the function: the initialisation, `flag = True` right before each break of this loop, the test
+        sets: List[Tuple[List[ast.stmt], int]] = []
+        ok = True
+        n_breaks = 0
+
+        def scan(body: List[ast.stmt]) -> None:
+            nonlocal ok, n_breaks
+            for k, st in enumerate(body):
+                if isinstance(st, ast.Break):
+                    n_breaks += 1
+                    prev = body[k - 1] if k > 0 else None
+                    if (isinstance(prev, ast.Assign) and len(prev.targets) == 1 and isinstance(prev.targets[0], ast.Name) and prev.targets[0].id == flag
+                            and isinstance(prev.value, ast.Constant) and prev.value.value is True):
+                        sets.append((body, k - 1))
+                    else:
+                        ok = False
+                elif isinstance(st, (ast.For, ast.While, ast.FunctionDef, ast.AsyncFunctionDef, ast.ClassDef)):
+                    if _names_used(st, flag) or any(isinstance(b, ast.Break) for b in ast.walk(st)) and False:
+                        ok = False
+                else:
+                    for fld in ("body", "orelse", "finalbody"):
+                        sub = getattr(st, fld, None)
+                        if isinstance(sub, list) and sub and isinstance(sub[0], ast.stmt):
+                            scan(sub)
+                    for h in getattr(st, "handlers", []) or []:
+                        scan(h.body)
+        scan(loop.body)
+        total = _names_used(scope_node, flag)
+        if not ok or n_breaks == 0 or len(sets) != n_breaks or total != 2 + len(sets):
+            i += 1
+            continue
+        for body, k in sorted(sets, key=lambda bk: -bk[1]):
+            del body[k]
+        loop.orelse = nxt.body
+        del out[i + 1]
+        del out[j]
+        i = max(i - 1, 0) + 1
+    return out
+
+
+class _FlagCanon(ast.NodeTransformer):
+    def _fn(self, node: ast.AST) -> ast.AST:
+        self.generic_visit(node)
+        for sub in ast.walk(node):
+            if sub is not node and isinstance(sub, (ast.FunctionDef, ast.AsyncFunctionDef, ast.Lambda, ast.ClassDef)):
+                continue
+            for fld in ("body", "orelse", "finalbody"):
+                lst = getattr(sub, fld, None)
+                if isinstance(lst, list) and lst and isinstance(lst[0], ast.stmt):
+                    setattr(sub, fld, _flag_to_else(lst, node))
+        return node
+
+    visit_FunctionDef = _fn
+    visit_AsyncFunctionDef = _fn
+
+
 class Module:
     def __init__(self, name: str, path: str, source: str):
         self.name = name
         self.path = path
         self.source = source
-        self.tree = ast.parse(source, filename=path)
+        self.tree = _FlagCanon().visit(_Canon().visit(ast.parse(source, filename=path)))
         self.lines = source.splitlines()
         # local name -> ('mod', modname) | ('sym', modname, symbol)
         self.imports: Dict[str, Tuple[str, ...]] = {}
@@ -555,13 +648,23 @@ class Repo:
         """Inline a repo function whose body is (docstring +) a single `return <expr>`."""
         fi = self.functions[q]
         body = [s for s in fi.node.body if not (isinstance(s, ast.Expr) and isinstance(s.value, ast.Constant))]  # type: ignore
-        if len(body) != 1 or not isinstance(body[0], ast.Return) or body[0].value is None:
-            raise AnalysisError("cannot fold call to %s (not a single-return function)" % q)
+        # straight-line body: simple assignments to fresh local names, then a single `return <expr>`
+        if not body or not isinstance(body[-1], ast.Return) or body[-1].value is None:
+            raise AnalysisError("cannot fold call to %s (not a straight-line single-return function)" % q)
         env: Dict[str, Any] = {}
         for p, a in zip(fi.params, args):
             env[p] = a
         env.update(kw)
-        return self.fold(body[0].value, fi.module, fi, env)
+        for st in body[:-1]:
+            tgt = val = None
+            if isinstance(st, ast.Assign) and len(st.targets) == 1:
+                tgt, val = st.targets[0], st.value
+            elif isinstance(st, ast.AnnAssign) and st.value is not None:
+                tgt, val = st.target, st.value
+            if not isinstance(tgt, ast.Name) or val is None:
+                raise AnalysisError("cannot fold call to %s (not a straight-line single-return function)" % q)
+            env[tgt.id] = self.fold(val, fi.module, fi, env)
+        return self.fold(body[-1].value, fi.module, fi, env)
 
     # ----------------------------------------------------------------- helpers
     def src(self, node: ast.AST) -> str:
